@@ -280,9 +280,11 @@ func (p *prog) addGo2JS(v *Val, path, q int) string {
 		p.expect[id+"#2"] = v.JSDesc()
 		p.detPair = append(p.detPair, [2]string{id + "#1", id + "#2"})
 		fmt.Fprintf(&b, "\ttry(%q, func() {\n\t\ta := snd_%s(%d, %q, %s)\n\t\tb := snd_%s(%d, %q, %s)\n", id, k, path, id+"#1", v.GoLit(), k, path, id+"#2", v.GoLit())
-		fmt.Fprintf(&b, "\t\tchk(%q, show_or(%s), show_or(%s))\n", id+".det", showExprTrip(v.T, fmt.Sprintf("rcv_%s(%d, b)", k, q)), showExprTrip(v.T, fmt.Sprintf("rcv_%s(%d, a)", k, q)))
+		if !v.typedDocSilent() {
+			fmt.Fprintf(&b, "\t\tchk(%q, show_or(%s), show_or(%s))\n", id+".det", showExprTrip(v.T, fmt.Sprintf("rcv_%s(%d, b)", k, q)), showExprTrip(v.T, fmt.Sprintf("rcv_%s(%d, a)", k, q)))
+			p.checks[id+".det"] = true
+		}
 		fmt.Fprintf(&b, "\t\taccDet(%q, a, b, \"A\")\n\t})\n", id)
-		p.checks[id+".det"] = true
 		p.checks[id+".detA"] = true
 	}
 	p.body = append(p.body, b.String())
